@@ -988,6 +988,11 @@ impl Formatter {
                             self.format_expr(&expr.node);
                             self.writer.write("}");
                         }
+                        FStringPart::DebugExpr(expr) => {
+                            self.writer.write("{");
+                            self.format_expr(&expr.node);
+                            self.writer.write(":?}");
+                        }
                     }
                 }
                 self.writer.write("\"");
